@@ -9,6 +9,7 @@ import Momo.Proof.ColumnsDfs
 * `newEdges_eq`, `buildGraph_eq`: the graph of one attempt is `oldEdges` over
   `columns ++ place items totalSize`.
 * `oldEdges_mem`: its edges are exactly the two directed edges per column record.
+* `oldEdges_count`: it uses two `Graph::Edge` records per column record.
 -/
 namespace Momo.Col
 
@@ -201,5 +202,58 @@ theorem graph_ok (c : Cfg) (param : Nat) (hL : Extracted.colLogVertexMin ≤ c.L
     rcases he with ⟨_, rfl⟩ | ⟨_, rfl⟩
     · exact ⟨hv.2, hB r hr⟩
     · exact ⟨hv.1, hB r hr⟩
+
+/-! ## Capacity of the edge storage -/
+
+/-- number of `Graph::Edge` records in use (`mEdgeNumber`) -/
+def edgeCount (g : Adj) : Nat := (g.toList.map List.length).sum
+
+theorem sum_set_length (l : List (List Edge)) (i : Nat) (x : List Edge) (h : i < l.length) :
+    ((l.set i x).map List.length).sum + l[i].length = (l.map List.length).sum + x.length := by
+  induction l generalizing i with
+  | nil => simp at h
+  | cons y ys ih =>
+    cases i with
+    | zero => simp; omega
+    | succ j =>
+      simp only [List.length_cons] at h
+      have := ih j (by omega)
+      simp only [List.set_cons_succ, List.map_cons, List.sum_cons, List.getElem_cons_succ]
+      omega
+
+theorem addEdge_count (g : Adj) (v1 v2 val : Nat) (h : v1 < g.size) :
+    edgeCount (addEdge g v1 v2 val) = edgeCount g + 1 := by
+  unfold edgeCount addEdge
+  rw [Array.toList_setIfInBounds]
+  have hl : v1 < g.toList.length := by simpa using h
+  have hs := sum_set_length g.toList v1 (⟨v2, val⟩ :: g.getD v1 []) hl
+  have hg : g.getD v1 [] = g.toList[v1] := by
+    simp [Array.getD_eq_getD_getElem?, h]
+  rw [hg] at hs ⊢
+  simp only [List.length_cons] at hs
+  omega
+
+theorem addEdges_count (g : Adj) (v1 v2 val : Nat) (h1 : v1 < g.size) (h2 : v2 < g.size) :
+    edgeCount (addEdges g v1 v2 val) = edgeCount g + 2 := by
+  unfold addEdges
+  rw [addEdge_count _ _ _ _ (by rw [addEdge_size]; exact h2), addEdge_count _ _ _ _ h1]
+
+theorem oldEdges_count (c : Cfg) (param : Nat) (hL : Extracted.colLogVertexMin ≤ c.L)
+    (hp : param ≤ Extracted.colMaxCodeParam) (rs : List ColRec) (g : Adj) (hg : g.size = c.N) :
+    edgeCount (oldEdges c param rs g) = edgeCount g + 2 * rs.length := by
+  induction rs generalizing g with
+  | nil => simp [oldEdges]
+  | cons r rs ih =>
+    have hv := vertices_lt c r.code param hL hp
+    simp only [oldEdges]
+    rw [ih _ (by rw [addEdges_size]; exact hg), addEdges_count _ _ _ _ (hg ▸ hv.1) (hg ▸ hv.2)]
+    simp only [List.length_cons]
+    omega
+
+theorem edgeCount_replicate (n : Nat) : edgeCount (Array.replicate n []) = 0 := by
+  unfold edgeCount
+  induction n with
+  | zero => rfl
+  | succ k ih => simp [Array.replicate_succ] at ih ⊢
 
 end Momo.Col
